@@ -614,7 +614,12 @@ mod e1 {
                                 }
                                 // (the actor may already have begun to stop — and released the name — before
                                 // its own spawn call returned: another client can reach it through its cell)
-                                H::Maybe(_) if !is_reg_err => holder[n] = if began_stopping.contains(&a) { H::Free } else { H::Held(a) },
+                                // and somebody else may have taken the name since (then the table already says so)
+                                H::Maybe(_) if !is_reg_err => {
+                                    if matches!(holder[n], H::Maybe(_)) {
+                                        holder[n] = if began_stopping.contains(&a) { H::Maybe(a) } else { H::Held(a) };
+                                    }
+                                }
                                 _ => {}
                             }
                             let registered = matches!(before, H::Free) || (matches!(before, H::Maybe(_)) && !is_reg_err);
